@@ -478,10 +478,16 @@ impl Cw20Scen {
             let cap = match cap.parse::<u128>() { Ok(c) if c < total => total.to_string(), _ => cap };
             // pre-0.14 state: allowances only in ALLOWANCES
             let mut al = vec![];
-            for _ in 0..rng.below(6) {
-                let o = rng.pick(&self.pool).clone();
+            // wide: old tables with far more entries than any batch or page size, a few owners with many spenders
+            // each (a migration that rebuilds the spender index in chunks must not lose rows at chunk boundaries)
+            let big = self.wide && rng.chance(1, 2);
+            let na = if big { 30 + rng.below(70) } else { rng.below(6) };
+            let owners = if big { 2 + rng.below(4) as usize } else { self.pool.len() };
+            let mut seen = std::collections::BTreeSet::new();
+            for _ in 0..na {
+                let o = self.pool[rng.below(owners.min(self.pool.len()) as u64) as usize].clone();
                 let s = rng.pick(&self.pool).clone();
-                if o == s {
+                if o == s || !seen.insert((o.clone(), s.clone())) {
                     continue;
                 }
                 let e = match rng.below(3) {
